@@ -84,7 +84,7 @@ def verify_unit(uname, fl, seed=None, rlimit=None, vacuity=True):
         return out
     with cf.ThreadPoolExecutor(2) as ex:
         f1 = ex.submit(run.run_verus, path, rlimit, seed)
-        f2 = ex.submit(run.run_verus, pathv, rlimit, seed) if vacuity else None
+        f2 = ex.submit(run.run_verus, pathv, rlimit, seed, 1800, None, 0) if vacuity else None
         r = f1.result()
         rv = f2.result() if f2 else None
     out.update(gen=g, path=path, res=r, resv=rv)
@@ -448,7 +448,7 @@ def evidence(dec, level_other=False):
         "coverage": {
             "obligations": dec["obligations"],
             "discharged": dec["discharged"],
-            "checker_cmd": "verus <unit>_<flavour>.rs --triggers-mode silent --output-json --time --error-format=json --multiple-errors 4 (Verus 0.2026.09.13, bundled Z3; one file per unit and flavour, generated from /repo on this run)",
+            "checker_cmd": "verus <unit>_<flavour>.rs --triggers-mode silent --output-json --time --error-format=json --multiple-errors 3 (Verus 0.2026.09.13, bundled Z3; one file per unit and flavour, generated from /repo on this run)",
             "trusted_base": trusted,
             "units": ["%s/%s" % uf for uf in dec["ufs"]],
             "functions_under_contract": dec["fn_report"],
